@@ -15,6 +15,12 @@ all lower bounds `≥ 0` (a consumer) or all upper bounds `≤ 0` (a producer). 
 `mf_surjective` (and what follows from it): without it the equal split of a feasible two-way flow can
 leave the conduit boxes `(lb, 0)`.  `mf_cost`, `mf_deriv`, `mf_feasible_iff` hold for every `d`.
 The constructor also refuses an empty conduit list: `1 ≤ k`.
+
+**Two-ratio sets.**  `mf_ratio_surjective` assumes both ratios strictly positive.  The constructor of
+`TwoRatioMFDeviceSet` does *not* enforce that (it only checks that there are two of them): with ratios
+`[1, −1]` over a consumer the equality `S 0 i·1 − S 1 i·(−1) = 0` together with `S ≥ 0` forces both conduits
+to `0`, so the adaptor can then be strictly smaller than the wrapped device; for such ratios only
+`mf_feasible_iff` (which holds for every ratio) applies, not surjectivity.
 -/
 namespace DK.C17
 open DK DK.C04
